@@ -782,8 +782,90 @@ pub fn run_define_twice(name: &str, cx: &ShardCtx) -> UnitResult {
             }
         }
     }
-    r.distinct_outcomes = 3;
-    r.desc = "defining a declared parser a second time (directly, through a clone, after a parse) panics and the message names the definition site".into();
+    // A refused second definition has no effect: every handle (the original, a clone made before, a clone made
+    // after) still parses exactly like a freshly built parser with the FIRST definition; same for a pair of
+    // mutually recursive declared parsers of which one is redefined.
+    type ER<'a> = extra::Err<Rich<'a, char>>;
+    type RP<'a> = Recursive<Indirect<'a, 'a, &'a str, String, ER<'a>>>;
+    fn def1<'a>(r: RP<'a>) -> impl Parser<'a, &'a str, String, ER<'a>> + Clone {
+        r.delimited_by(just('('), just(')')).map(|s| format!("({s})")).or(just('a').to("a".to_string()))
+    }
+    fn def2<'a>(r: RP<'a>) -> impl Parser<'a, &'a str, String, ER<'a>> + Clone {
+        r.delimited_by(just('['), just(']')).map(|s| format!("[{s}]")).or(just('b').to("b".to_string()))
+    }
+    let alphabet = ['a', 'b', '(', ')', '[', ']'];
+    let mut inputs = vec![String::new()];
+    let mut frontier = vec![String::new()];
+    for _ in 0..4 {
+        let mut next = vec![];
+        for w in &frontier {
+            for c in alphabet {
+                let mut x = w.clone();
+                x.push(c);
+                next.push(x);
+            }
+        }
+        inputs.extend(next.iter().cloned());
+        frontier = next;
+    }
+    fn obs<'a>(p: &RP<'a>, w: &'a str) -> String {
+        format!("{:?} / {:?}", p.parse(w).into_output_errors(), p.check(w).into_errors())
+    }
+    let mut outcomes = HashSet::new();
+    for who in 0..2 {
+        for when in 0..2 {
+            for mutual in [false, true] {
+                let mut fresh: RP = Recursive::declare();
+                fresh.define(def1(fresh.clone()));
+                let mut p: RP = Recursive::declare();
+                let mut other: RP = Recursive::declare();
+                if mutual {
+                    // p = '(' other ')' | 'a', other = p
+                    p.define(def1(other.clone()));
+                    other.define(p.clone());
+                } else {
+                    p.define(def1(p.clone()));
+                }
+                let mut before = p.clone();
+                if when == 1 {
+                    let _ = p.parse("(a)");
+                }
+                let refused = catch_unwind(AssertUnwindSafe(|| {
+                    if who == 0 {
+                        let d = def2(p.clone());
+                        p.define(d)
+                    } else {
+                        let d = def2(before.clone());
+                        before.define(d)
+                    }
+                }))
+                .is_err();
+                let case = format!("second define by {} {} ({})", if who == 0 { "the original" } else { "a clone" }, if when == 1 { "after a parse" } else { "before any parse" }, if mutual { "mutually recursive pair" } else { "self-recursive" });
+                r.cases += 1;
+                if !refused {
+                    mism(&mut r, "rec-define", name, case.clone(), "", "a second define() was accepted silently".into());
+                    continue;
+                }
+                let after = p.clone();
+                for w in &inputs {
+                    let want = obs(&fresh, w);
+                    outcomes.insert(want.clone());
+                    for (hn, h) in [("original", &p), ("clone made before", &before), ("clone made after", &after)] {
+                        r.cases += 1;
+                        r.validated += 1;
+                        r.transitions += 1;
+                        let got = catch_unwind(AssertUnwindSafe(|| obs(h, w))).unwrap_or_else(|e| format!("panic: {}", cvh::e1::panic_msg(e)));
+                        if got != want {
+                            mism(&mut r, "rec-define", name, case.clone(), w, format!("after the refused second definition, {hn} gives {got}, the first definition gives {want}"));
+                        }
+                    }
+                }
+            }
+        }
+    }
+    r.states += inputs.len() as u64 * 8;
+    r.distinct_outcomes = 3 + outcomes.len() as u64;
+    r.desc = format!("defining a declared parser a second time (directly, through a clone, after a parse) panics and the message names the definition site; after the refusal (8 histories: by the original or a clone, before or after a parse, self- or mutually recursive) every handle still equals the first definition on all {} strings over \"ab()[]\" of length <= 4", inputs.len());
     r
 }
 
